@@ -295,6 +295,8 @@ def safe_division_symbolic(R):
 
 
 def run(R):
+    from engine.canary import run_canaries
+    run_canaries(R, ('e1', 'symx'))
     W = Worlds(R.seed)
     npts = 1 if R.tier == 'quick' else 3
     R.assume('A1', 'A2', 'A5', 'A6', 'A7', 'A8')
